@@ -361,11 +361,19 @@ func replyLike(el []STok, id string, emptySpaceOK bool) bool {
 	return i == id && typ != "get" && typ != "set"
 }
 
+// writesReply: the handler opened, outside any other element it wrote, an
+// element that counts as the reply (whether or not it went on to close it)
 func writesReply(v InvObs, id string) bool {
-	els, _ := TopElems(v.Wrote)
-	for _, el := range els {
-		if replyLike(el, id, true) {
-			return true
+	depth := 0
+	for i, t := range v.Wrote {
+		switch t.K {
+		case 1:
+			if depth <= 0 && replyLike(v.Wrote[i:i+1], id, true) {
+				return true
+			}
+			depth++
+		case 2:
+			depth--
 		}
 	}
 	return false
